@@ -111,33 +111,35 @@ func widenMultipart(r *vh.RNG, d *dg.Design) {
 // code, so the stream keeps to bodies without defaults (parameters, headers and cookies -
 // which the GENERATED decoder merges - keep theirs).
 func multipartBodyHasDefaults(d *dg.Design, m *dg.Method) bool {
+	// the same resolution of fields as the expectation (withDefaults): d.AllFields follows
+	// Extend, d.Base follows alias chains
 	seen := map[string]bool{}
-	var deep func(a *dg.Attr) bool
-	deep = func(a *dg.Attr) bool {
-		if a == nil {
-			return false
-		}
-		if a.HasDef {
-			return true
-		}
-		switch a.T.Kind {
-		case "array":
-			return deep(a.T.Elem)
-		case "map":
-			return deep(a.T.Elem) || deep(a.T.Key)
-		case "object":
-			for _, f := range a.T.Attrs {
-				if deep(&f.A) {
-					return true
-				}
-			}
-		case "user", "collection":
-			if seen[a.T.Ref] {
+	var deepT func(t *dg.Type) bool
+	deepA := func(a *dg.Attr) bool { return a != nil && (a.HasDef || deepT(&a.T)) }
+	deepT = func(t *dg.Type) bool {
+		if t.Kind == "user" || t.Kind == "collection" {
+			if seen[t.Ref] {
 				return false
 			}
-			seen[a.T.Ref] = true
-			if ut := d.UserType(a.T.Ref); ut != nil {
-				return deep(&dg.Attr{T: ut.Base})
+			seen[t.Ref] = true
+		}
+		ut := t
+		if t.Kind == "collection" {
+			ut = &dg.Type{Kind: "user", Ref: t.Ref}
+		}
+		bt, _ := d.Base(ut)
+		switch bt.Kind {
+		case "array":
+			return deepA(bt.Elem)
+		case "map":
+			return deepA(bt.Elem) || deepA(bt.Key)
+		case "collection":
+			return deepT(bt)
+		case "object":
+			for _, f := range d.AllFields(ut) {
+				if deepA(&f.A) {
+					return true
+				}
 			}
 		}
 		return false
@@ -146,8 +148,8 @@ func multipartBodyHasDefaults(d *dg.Design, m *dg.Method) bool {
 	for _, n := range bodyFieldsOf(m) {
 		body[n] = true
 	}
-	for _, f := range m.Payload.T.Attrs {
-		if body[f.Name] && deep(&f.A) {
+	for _, f := range d.AllFields(&m.Payload.T) {
+		if body[f.Name] && deepA(&f.A) {
 			return true
 		}
 	}
@@ -263,4 +265,37 @@ func trunc(s string) string {
 		return s[:160] + "…"
 	}
 	return s
+}
+
+// renameShadowedExtendAttrs: goa's Extend lets the BASE type's attribute win when a type
+// declares an attribute under a name it also inherits (expr AttributeExpr.Merge: left.Set of
+// every attribute of the extended type), while the design description reads the type's own
+// declaration. So that description and generated code speak of the same attributes, an own
+// attribute shadowed by an inherited one gets a fresh name (the inherited one stays
+// reachable under the old name, exactly as goa has it).
+func renameShadowedExtendAttrs(d *dg.Design) {
+	for _, ut := range d.Types {
+		if ut.Extend == "" || ut.Base.Kind != "object" {
+			continue
+		}
+		inherited := map[string]bool{}
+		for _, f := range d.AllFields(&dg.Type{Kind: "user", Ref: ut.Extend}) {
+			inherited[f.Name] = true
+		}
+		own := map[string]bool{}
+		for _, f := range ut.Base.Attrs {
+			own[f.Name] = true
+		}
+		for _, f := range ut.Base.Attrs {
+			if !inherited[f.Name] {
+				continue
+			}
+			n := f.Name + "_own"
+			for inherited[n] || own[n] {
+				n += "x"
+			}
+			own[n] = true
+			f.Name = n
+		}
+	}
 }
